@@ -19,7 +19,7 @@ func ZZVerifC12LateChild() {
 	nd.Schedule(nd.Param("P", 2))
 	nd.Races()
 	parent := New(Params{Name: "p"})
-	mode := nd.Choose("mode", 4)
+	mode := nd.Choose("mode", 5)
 	isolated := nd.Choose("isolated", 2) == 1
 	mk := func() app.Scope {
 		cp := ChildParams{Name: "c"}
@@ -56,6 +56,36 @@ func ZZVerifC12LateChild() {
 		c := mk()
 		c.Close()
 		wg.Wait()
+	case 4: // the child of a done parent outlives it: the parent is closed
+		// first (it does not wait for a child it never registered), then the
+		// child reports a failure, is killed or stopped, and is closed
+		if nd.Bool("parent-stopped-not-killed") {
+			parent.Stop()
+		} else {
+			parent.Kill()
+		}
+		c := mk()
+		parent.Close()
+		e := errors.New("late")
+		switch nd.Choose("late-signal", 3) {
+		case 0:
+			c.AppendError(e)
+			found := false
+			for _, x := range c.Errors() {
+				if x == e {
+					found = true
+				}
+			}
+			nd.Assert(found, "C12/latechild-error-retained")
+		case 1:
+			c.Kill()
+		default:
+			c.Stop()
+		}
+		nd.Assert(c.IsDone(), "C12/latechild-child-done")
+		c.Close()
+		nd.Reach("C12/latechild-end")
+		return
 	}
 	parent.Wait()
 	nd.Assert(parent.IsDone(), "C12/latechild-parent-done")
